@@ -62,9 +62,17 @@ def render_line(i, l):
     return "Traceback (most recent call last):"
 
 
+# the case is played for t.c; for the second translation unit u.c the addon prints only the summary lines of the case -
+# byte-identical to those of t.c - and succeeds: every summary of every translation unit must reach the whole-program stage
 FAKE = open(os.path.join(vlib.VERIF, "drivers", "fakeaddon.py")).read().replace(
     'for line in case["lines"]:\n',
-    'if os.path.basename(src) != "t.c":\n    sys.exit(0)\nfor line in case["lines"]:\n')
+    'if os.path.basename(src) != "t.c":\n'
+    '    for line in case["lines"]:\n'
+    '        if line.startswith(\'{"summary"\'):\n'
+    '            sys.stdout.write(line + "\\n")\n'
+    '    sys.stdout.flush()\n'
+    '    sys.exit(0)\n'
+    'for line in case["lines"]:\n')
 assert 'basename(src) != "t.c"' in FAKE
 
 
@@ -100,11 +108,16 @@ def run_case(c):
     raw = vlib.read_traces(tdir)
     shutil.rmtree(tdir, ignore_errors=True)
     fs = projgen.parse_findings(err)
+    # the line kinds logged while t.c was being checked (AddonLine events between CheckBegin(t.c) and the next CheckBegin of
+    # the same thread)
     kinds = []
     for pid, evs in raw.items():
-        ks = [e["kind"] for e in evs if e["e"] == "AddonLine"]
-        if ks:
-            kinds = ks
+        cur = {}
+        for e in evs:
+            if e["e"] == "CheckBegin":
+                cur[e.get("tid", 0)] = os.path.basename(e.get("file", ""))
+            elif e["e"] == "AddonLine" and cur.get(e.get("tid", 0)) == "t.c":
+                kinds.append(e["kind"])
     got = 0
     for fn in os.listdir(root):
         if fn.startswith("received-"):
